@@ -27,6 +27,9 @@ type c05exp struct {
 	ev       NEv
 	cause    int64 // when the chunk holding its first byte was offered to Read (set while feeding)
 	firstOff int
+	// loose mouse token (wheel, extra buttons, modifiers): one or two events at its
+	// coordinates, buttons not compared; optional: the report may decode to nothing
+	loose, optional bool
 }
 
 type c05poll struct {
@@ -76,6 +79,7 @@ func C05(r *core.Run) {
 	nc := r.Pick(60, 1200)
 	core.ParallelW(nc, 8, func(ci int) { c05channel(r, ci) })
 	c05stall(r)
+	c05pendingStall(r)
 	r.Count("schedule_points_hit", atomic.LoadInt64(&sc.hits))
 	r.Set("race_reports_in_this_run", "written to replays/C05-race.* by the race detector (decided by C10)")
 }
@@ -102,10 +106,21 @@ func c05history(r *core.Run, hi int) {
 			rn := rune(0x4e00 + id)
 			stream = append(stream, []byte(string(rn))...)
 			add(NEv{T: "key", Key: tcell.KeyRune, Rune: rn})
-		case k < 8:
+		case k < 7:
 			x, y := id%400, id/400
 			stream = append(stream, []byte(fmt.Sprintf("\x1b[<0;%d;%dM", x+1, y+1))...)
 			add(NEv{T: "mouse", X: x, Y: y, Btn: tcell.Button1})
+		case k < 8:
+			// other report codes: middle/right, wheel, buttons 8-11, modifiers, motion
+			codes := []int{1, 2, 64, 65, 66, 67, 128, 129, 130, 131, 4, 8, 16, 28, 32, 35, 192}
+			c := codes[rg.IntN(len(codes))]
+			x, y := id%400, id/400
+			fin := "M"
+			if rg.IntN(4) == 0 {
+				fin = "m"
+			}
+			stream = append(stream, []byte(fmt.Sprintf("\x1b[<%d;%d;%d%s", c, x+1, y+1, fin))...)
+			exps = append(exps, &c05exp{ev: NEv{T: "mouse", X: x, Y: y}, firstOff: off, loose: true, optional: c >= 128})
 		case k < 9:
 			rn := rune(0x4e00 + id)
 			stream = append(stream, []byte("\x1b[200~"+string(rn)+"\x1b[201~")...)
@@ -341,7 +356,21 @@ func c05history(r *core.Run, hi int) {
 			fail("input:extra:"+n.T, fmt.Sprintf("delivery %d is %s but all %d input events had already been delivered (duplicate?)", pi, n, len(exps)))
 			return
 		}
+		// extra event of the loose mouse token just matched
+		if ei > 0 && exps[ei-1].loose && n.T == "mouse" && n.X == exps[ei-1].ev.X && n.Y == exps[ei-1].ev.Y {
+			continue
+		}
+		for ei < len(exps) && exps[ei].optional && !(n.T == "mouse" && n.X == exps[ei].ev.X && n.Y == exps[ei].ev.Y) {
+			ei++ // a report tcell is free not to decode
+		}
+		if ei >= len(exps) {
+			fail("input:extra:"+n.T, fmt.Sprintf("delivery %d is %s but all %d input events had already been delivered (duplicate?)", pi, n, len(exps)))
+			return
+		}
 		want := exps[ei]
+		if want.loose && n.T == "mouse" && n.X == want.ev.X && n.Y == want.ev.Y {
+			n = want.ev
+		}
 		if n != want.ev {
 			kind := "changed"
 			for j := ei + 1; j < len(exps) && j < ei+40; j++ {
@@ -373,6 +402,9 @@ func c05history(r *core.Run, hi int) {
 			fail("when:zero:"+n.T, fmt.Sprintf("input event %d %s has a zero When()", ei, n))
 			return
 		}
+		ei++
+	}
+	for ei < len(exps) && exps[ei].optional {
 		ei++
 	}
 	if ei != len(exps) {
@@ -699,4 +731,111 @@ func c05stall(r *core.Run) {
 			}
 		}
 	}
+}
+
+// c05pendingStall: "a true HasPendingEvent means the next PollEvent does not block",
+// asked while the main loop is held up by a redraw on a slow terminal and input that
+// has been read is still on its way. The verdict is structural: with a single
+// consumer, PollEvent on a non-empty event queue never parks; a poller found parked in
+// PollEvent right after HasPendingEvent said true has blocked.
+func c05pendingStall(r *core.Run) {
+	ti := Pristine("xterm-256color")
+	chunksets := [][][]byte{
+		{{0xff}, {0xfe}},                            // decodes to nothing
+		{[]byte("\x1b["), []byte("1;")},             // head of a sequence, still incomplete
+		{[]byte("a"), []byte("b")},                  // events, but not yet
+		{[]byte("\x1b]52;c;!\x07"), []byte("\xc3")}, // rejected clipboard reply, head of a rune
+		{[]byte("\x1b[<0;"), []byte("5;")},
+	}
+	rounds := r.Pick(10, 200)
+	for k := 0; k < rounds; k++ {
+		cs := chunksets[k%len(chunksets)]
+		ls, err := startScreen(ti, 20, 5, nil)
+		if err != nil {
+			r.Inconclusive(err.Error())
+			return
+		}
+		s := ls.s
+		for s.HasPendingEvent() {
+			s.PollEvent()
+		}
+		s.SetContent(1, 1, 'x', nil, tcell.StyleDefault)
+		atomic.StoreInt64(&ls.tty.WriteDelayNS, int64(400*time.Millisecond))
+		shown := make(chan struct{})
+		go func() { ls.tty.BeginApp(); s.Show(); ls.tty.EndApp(); close(shown) }()
+		stalled := false
+		for i := 0; i < 400000 && !stalled; i++ {
+			stalled = atomic.LoadInt32(&ls.tty.InDelay) > 0
+			runtime.Gosched()
+		}
+		fed := make(chan struct{})
+		go func() {
+			for _, c := range cs {
+				ls.tty.Feed(c)
+			}
+			close(fed)
+		}()
+		// ask repeatedly while the redraw is stalled
+		asked, sawTrue, parked := 0, false, false
+		var polled chan tcell.Event
+		for i := 0; i < 3000 && atomic.LoadInt32(&ls.tty.InDelay) > 0; i++ {
+			asked++
+			if s.HasPendingEvent() {
+				sawTrue = true
+				polled = make(chan tcell.Event, 1)
+				var gid atomic.Int64
+				go func() { gid.Store(int64(curGoid())); polled <- s.PollEvent() }()
+				for j := 0; j < 200 && !parked && len(polled) == 0; j++ {
+					runtime.Gosched()
+					parked = gid.Load() != 0 && goroutineParkedIn("(*baseScreen).PollEvent", gid.Load())
+				}
+				break
+			}
+			runtime.Gosched()
+		}
+		atomic.StoreInt64(&ls.tty.WriteDelayNS, 0)
+		<-shown
+		ls.tty.Feed([]byte{0x18, 0x18}) // CAN aborts a pending sequence in every parser state
+		ls.tty.Feed([]byte{0x1d})
+		<-fed
+		if polled != nil {
+			select {
+			case <-polled:
+			case <-time.After(20 * time.Second):
+				r.Inconclusive("pending-stall: PollEvent never returned after the sentinel")
+			}
+		}
+		ls.fini()
+		r.Case(fmt.Sprintf("pendingstall|%d", k))
+		switch {
+		case !stalled:
+			r.Count("pending_stall_rounds_without_stall", 1)
+		default:
+			r.Count("pending_stall_rounds", 1)
+			r.Count("pending_stall_haspending_calls", int64(asked))
+			if sawTrue && parked {
+				r.Violate("haspending:true-but-poll-blocks:stalled-main-loop", fmt.Sprintf("input chunks %q arrived while the main loop was held up by a redraw on a slow terminal and the event queue was empty: HasPendingEvent() returned true and the PollEvent that followed parked (single consumer)", cs), nil)
+			}
+		}
+	}
+}
+
+// goroutineParkedIn reports whether the given goroutine is parked (select / chan receive)
+// with the given function on its stack.
+func goroutineParkedIn(fn string, goid int64) bool {
+	buf := make([]byte, 1<<20)
+	buf = buf[:runtime.Stack(buf, true)]
+	for _, g := range strings.Split(string(buf), "\n\n") {
+		if !strings.Contains(g, fn) || !strings.HasPrefix(g, fmt.Sprintf("goroutine %d [", goid)) {
+			continue
+		}
+		hdr := g
+		if i := strings.Index(g, "\n"); i > 0 {
+			hdr = g[:i]
+		}
+		if strings.Contains(hdr, "[select") || strings.Contains(hdr, "[chan receive") {
+			return true
+		}
+	}
+	return false
 }
